@@ -247,7 +247,7 @@ def run_parallel(c, rng, work, recs, jobs, gz, inputs, gz_input=False, child=("c
     else:
         argv_ = [repo_bin("warc_parallel"), "-j", str(jobs)] + (["-z"] if gz else []) + list(child)
         stdin = b"".join(recs)
-    st, so, se = run_tool(argv_, stdin=stdin, timeout=25)
+    st, so, se = codeclog.run_tool_limited(argv_, stdin=stdin, timeout=25)
     how = "warc_parallel -j %d %s%s %s   (%d records, %d bytes)" % (jobs, "-z " if gz else "", ("-i %d files%s --" % (inputs, " (gz)" if gz_input else "")) if inputs else "<stdin", " ".join(child), len(recs), sum(len(r) for r in recs))
     rep = {"op": "warc_parallel", "how": how, "jobs": jobs, "gzip": gz, "inputs": inputs, "status": st,
            "records_hex": [r.hex() for r in recs[:6]] if sum(len(r) for r in recs[:6]) < 3000 else "large", "stderr": se.decode("utf-8", "replace")[-200:]}
@@ -400,13 +400,13 @@ def main(argv):
         data_in = full[:k]
         if mode == 0:
             argv_ = [repo_bin("warc_parallel"), "-j", "1", "cat"]
-            st, so, se = run_tool(argv_, stdin=data_in, timeout=25)
+            st, so, se = codeclog.run_tool_limited(argv_, stdin=data_in, timeout=25)
             how = "head -c %d two-records.warc | warc_parallel -j 1 cat" % k
         else:
             nm = os.path.join(work, "cut%d.warc%s" % (k, ".gz" if mode == 2 else ""))
             open(nm, "wb").write(gzip.compress(data_in) if mode == 2 else data_in)
             argv_ = [repo_bin("warc_parallel"), "-j", "2", "-i", nm, "--", "cat"]
-            st, so, se = run_tool(argv_, stdin=b"", timeout=25)
+            st, so, se = codeclog.run_tool_limited(argv_, stdin=b"", timeout=25)
             how = "warc_parallel -j 2 -i <first %d bytes of a 2-record stream%s> -- cat" % (k, ", gzipped" if mode == 2 else "")
         c.count(("truncated-tool-input", k, mode), bucket="warc_parallel/truncated-input/%s" % ("stdin", "file", "gz-file")[mode])
         if st == 0:
@@ -419,7 +419,7 @@ def main(argv):
         bad_in = os.path.join(work, "bad%d.warc" % k)
         open(bad_in, "wb").write(full[:k])
         for order in ([good_in, bad_in], [bad_in, good_in]):
-            st, so, se = run_tool([repo_bin("warc_parallel"), "-j", "3", "-i"] + order + ["--", "cat"], stdin=b"", timeout=25)
+            st, so, se = codeclog.run_tool_limited([repo_bin("warc_parallel"), "-j", "3", "-i"] + order + ["--", "cat"], stdin=b"", timeout=25)
             c.count(("truncated-one-of-two", k, order[0] == good_in), bucket="warc_parallel/truncated-input/one-of-two-files")
             if st == 0:
                 c.violation("warc_parallel-truncated-input-accepted: one of two -i files is cut after %d bytes, the tool exits 0" % k,
@@ -428,7 +428,7 @@ def main(argv):
     for x in [y for y in cases if y["bucket"].startswith("valid/gz/member-ends-at-refill-boundary")][::4]:
         nm = os.path.join(work, "boundary.warc.gz")
         open(nm, "wb").write(x["stream"])
-        st, so, se = run_tool([repo_bin("warc_parallel"), "-j", "2", "-i", nm, "--", "cat"], stdin=b"", timeout=25)
+        st, so, se = codeclog.run_tool_limited([repo_bin("warc_parallel"), "-j", "2", "-i", nm, "--", "cat"], stdin=b"", timeout=25)
         c.count(("gz-boundary-tool", x["bucket"]), bucket="warc_parallel/gz-member-at-refill-boundary")
         got = py_parse(so) if st == 0 else None
         if st != 0 or got is None or collections.Counter(got) != collections.Counter(x["records"]):
